@@ -160,7 +160,8 @@ impl Scenario for ScanEdit {
             spec.files.push(PyFile { rel: "plugsrc/myplug/__init__.py".into(), items: vec![] });
             let sp = super::ws::SITE;
             spec.extra.push((format!("{}/myplug-0.1.0.dist-info/direct_url.json", sp), "{\"url\": \"file://${ROOT}/plugsrc\", \"dir_info\": {\"editable\": true}}".to_string()));
-            spec.extra.push((format!("{}/myplug-0.1.0.dist-info/entry_points.txt", sp), "[pytest11]\nmyplug = myplug.plugin\n".to_string()));
+            // (the entry point names the plugin module or, 2 times in 5, the package: every module in the package directory is then analysed by plugin discovery)
+            spec.extra.push((format!("{}/myplug-0.1.0.dist-info/entry_points.txt", sp), if rng.chance(400) { "[pytest11]\nmyplug = myplug\n".to_string() } else { "[pytest11]\nmyplug = myplug.plugin\n".to_string() }));
             spec.extra.push((format!("{}/__editable__.myplug-0.1.0.pth", sp), "${ROOT}/plugsrc\n".to_string()));
             // a helper module of that project which the root conftest declares in pytest_plugins: every file below an editable
             // install's source root is in the import scan's work list once it is cached, helper modules included
@@ -237,7 +238,7 @@ impl Scenario for ScanEdit {
         let via_symlink = rng.chance(150);
         // the user is in the middle of typing: the buffer does not parse (the file on disk is its last valid version)
         // (an open+close of a half-typed document: 2 in 5)
-        let buffer = if plug_helper_raced || rng.chance(if kind == "openclose" { 400 } else { 150 }) { super::pytext::break_syntax(&mut rng, &spec.file(&file).map(|pf| render(&pf.items).text).unwrap_or_else(|| buffer.clone())) } else { buffer };
+        let buffer = if rng.chance(if plug_helper_raced { 500 } else if kind == "openclose" { 400 } else { 150 }) { super::pytext::break_syntax(&mut rng, &spec.file(&file).map(|pf| render(&pf.items).text).unwrap_or_else(|| buffer.clone())) } else { buffer };
         serde_json::to_value(ScanEditInput { spec, sim, file, buffer, kind: kind.into(), delay, aim, second, run_seed, sandbox: None, via_symlink }).unwrap()
     }
 
